@@ -13,5 +13,8 @@ CONSTANTS
   NoDotEscape = FALSE
   DecoderStrips = FALSE
   DotAnyIndent = FALSE
+  StaleDump = FALSE
+  LicMemoBySynopsis = FALSE
+  ParseMemoAliased = FALSE
 SPECIFICATION TSpec
 CHECK_DEADLOCK FALSE
